@@ -236,7 +236,7 @@ def symbolic_run(qualname, args):
         val = ov if isinstance(ov, SetV) else ov.snapshot("gen")
     elif kind == "fall":
         val = NONE
-    uni = max([len(a) for a in args if hasattr(a, "__len__")] + [len(getattr(a, "pattern", ())) for a in args] + [3] + ([10] if K.returns == "IntSetGen" else []))
+    uni = max([len(a) for a in args if hasattr(a, "__len__")] + [len(getattr(a, "pattern", ())) for a in args] + [3] + ([10] if K.returns in ("IntSetGen", "IntSet") else []))
     return ("value", from_sym(val, uni + 2))
 
 
@@ -263,7 +263,7 @@ def differential(qualname, args):
     real = real_run(qualname, args)
     if dsl.CONTRACTS[qualname].returns == "CellSetGen" and real[0] == "value":
         real = ("value", {tuple(c) for c in real[1]})
-    if dsl.CONTRACTS[qualname].returns == "IntSetGen" and real[0] == "value":
+    if dsl.CONTRACTS[qualname].returns in ("IntSetGen", "IntSet") and real[0] == "value":
         real = ("value", {getattr(v, "value", v) for v in real[1]})  # Enum members by value
     if sym[0] != real[0]:
         return "disagree", f"encoder: {sym}  CPython: {real}"
